@@ -5,6 +5,7 @@ from .. import numeric
 ID = "C02"
 T_GEN = ["PulseAtomsGen.v"]
 T_FILES = ["Generated/PulseAtomsGen", "Numeric/Atoms", "Props/C02"]
+PROPS_FILES = ["C02", "C02h"]       # C02h: call convention of user shapes (hand model)
 ALLOWED_AXIOMS = ["ClassicalDedekindReals.sig_forall_dec", "ClassicalDedekindReals.sig_not_dec",
                   "FunctionalExtensionality.functional_extensionality_dep"]
 RULE = ("tie T: PulseAtoms.* re-translated from src/broadbean/broadbean.py into Gallina on this run and the closed-form "
